@@ -177,7 +177,7 @@ SEEDS_M = ['ul#nav>li.item$*4>a{Item $}', 'div>p{a ${1:foo} b}+span[title="x y" 
            'ul>lorem5-10', '!', 'doc', 'input:t', 'a:link', 'table>.row>.col*2', 'p{$#}*', 'a[b=$#]*', 'x[a.]>y[!b]', 'Foo.Bar.Baz', 'div..x',
            'label>input', 'select>opt*2', 'c>p', 'cc:ie', 'div.b_m>.-e_m2', 'ul>li.-a', '{${lang}}', 'a{${foo}}', 'a[b=${bar}]', 'xsl', 'vare>x',
            'tm', 'div#a.b>p#c', 'a*', 'ri:a', 'html:4t', 'p>{text}+{more ${0}}', 'a/>b', 'br/*2', '$$$@-3*2', 'a$@^*2>b$@^^*2', 'vs>vt+vr',
-           'ul>li*', '(x>y)*', 'loremru4', 'p.{a}', 'a[{b}]', 'x[a="b\'c"]', "x[a='b\"c']", 'a{\\}}', 'a>{b}*3', 'a/', '(a)(b)', 'a+', '.b__e_m']
+           'ul>li*', '(x>y)*', 'loremru4', 'p{${1}}>div', 'p{a ${1}}>ul>li', 'x{${1}${2}}>b+i+em', 'p{l1\nl2}>span', 'cc:ie>div', 'c>p', '{${1}}>div', 'p.{a}', 'a[{b}]', 'x[a="b\'c"]', "x[a='b\"c']", 'a{\\}}', 'a>{b}*3', 'a/', '(a)(b)', 'a+', '.b__e_m']
 SEEDS_C = ['p10', 'm10-20', 'bd1-s#f.5', 'c#fc0', 'lg(t, #fff, #000)', 'animic', 'anim', '@kf', 'p10+m20!', 'trf:r', 'bg:n', 'fz1.5e', 'p${1:foo}',
            '$var10', '@w20', '--custom', 'p:--x', 'c:rgb(0,0,0)', 'ff:"a b"', 'bgi:url(a.png)', 'trs:all .3s', 'p!', 'ov:h', 'd:ib', 'poa', 'm0-a',
            'foo', 'baz', 'q', 'q:a', 'animdur', 'cnt', 'bxsh', 'trf:s3d', 'gtc:r', 'lg', 'p0.0', 'c#t', 'c#.5', 'mten', 'foo2']
